@@ -38,7 +38,7 @@ func (h hashChoice) proto() *cidlink.LinkPrototype {
 // alteration classes per (hash, segmentation, block position):
 //
 //	P positions x {flip, truncate} + fixed extras
-const c02Extras = 12
+const c02Extras = 16
 
 func c02P(tier string) int {
 	if tier == "thorough" {
@@ -93,7 +93,7 @@ func c02Plan(r *simkit.Run, c Cfg, w *World) (c04Cfg, []faultPlan) {
 		cfg.preSynced = tp.Choose(cfg.nAds, "preSynced")
 		np := 1 + tp.Choose(2, "nfaults")
 		var plans []faultPlan
-		kinds := []int{fkFlip, fkTruncate, fkAppend, fkEmpty, fkOversize, fkSubstitute, fkShortCL, fkStoreCommit, fkStoreLose, fkResetMid}
+		kinds := []int{fkFlip, fkTruncate, fkAppend, fkEmpty, fkOversize, fkSubstitute, fkShortCL, fkStoreCommit, fkStoreLose, fkResetMid, fkStreamResetMid, fkStreamResetMid, fkStreamResetPre}
 		for i := 0; i < np; i++ {
 			p := faultPlan{kind: kinds[tp.Choose(len(kinds), "fkind")], at: tp.Choose(cfg.nAds+2, "fat"), arg: tp.Choose(8000, "farg"), exact: true}
 			if p.kind == fkSubstitute && tp.Chance(1, 2, "foreign") {
@@ -140,6 +140,14 @@ func c02Plan(r *simkit.Run, c Cfg, w *World) (c04Cfg, []faultPlan) {
 			p = faultPlan{kind: fkSubstitute, at: at, body: c02Foreign(0, h)}
 		case 10:
 			p = faultPlan{kind: fkShortCL, at: at, arg: 300, exact: true}
+		case 12:
+			p = faultPlan{kind: fkStreamResetPre, at: at}
+		case 13:
+			p = faultPlan{kind: fkStreamResetMid, at: at, arg: 0}
+		case 14:
+			p = faultPlan{kind: fkStreamResetMid, at: at, arg: 40}
+		case 15:
+			p = faultPlan{kind: fkStreamResetMid, at: at, arg: 250}
 		default:
 			p = faultPlan{kind: fkSubstitute, at: at, body: c02Foreign(1, h)}
 		}
